@@ -22,6 +22,8 @@ import (
 type intrinsic struct {
 	name string
 	fn   func(ex *Exec, fr *Frame, args []Value) Value
+	// mayDecline: the model may return fallThrough{} to have the real body interpreted
+	mayDecline bool
 }
 
 type Program struct {
@@ -188,7 +190,8 @@ func (p *Program) intrinsicFor(fn *ssa.Function) *intrinsic {
 }
 
 func (p *Program) reg(name string, f func(ex *Exec, fr *Frame, args []Value) Value) {
-	p.intr[name] = &intrinsic{name: name, fn: f}
+	p.intr[name] = &intrinsic{name: name, fn: f,
+		mayDecline: strings.Contains(name, "/codec/dagjson.") || strings.Contains(name, "/codec/dagcbor.") || strings.HasSuffix(name, "go-cid.Decode")}
 }
 
 // namedType finds a named type pkgpath.Name in the loaded program.
